@@ -31,6 +31,7 @@ CONSTANTS N,            \* number of declared compartments
           Excl,         \* exclude_from_normalize: set of compartments
           JCodes,       \* initial concentration parameter vectors by declaration position, as decimal numbers (121 = <<1, 2, 1>>)
           Kinds,        \* subset of {"general", "seq", "par"}
+          FirstLo, FirstHi,  \* shard of the enumeration: position of the first entry of the first K-matrix (1 and N*N: everything)
           EmitOn        \* TRUE: every terminal state is printed as a JSON line
 
 VARIABLES k1,      \* first K-matrix: position -> rate
@@ -120,6 +121,7 @@ Dot(u, w, m) == SumTo([i \in 1..m |-> u[i] * w[i]], m)
 (* integer eigenvalues of -K *)
 MaxR(M, m) == 2 * MaxTo([i \in 1..m |-> -M[i][i]], m)
 EigSet(M, m) == {r \in 0..MaxR(M, m) : Det(Shift(M, m, r), m) = 0}
+Eigen(M, m) == SortedSeq(EigSet(M, m))      \* ascending; complete iff Len = m
 SpectrumOK(kc) == LET idx == Idx(kc, Ord)  m == Len(idx) IN Cardinality(EigSet(FullK(kc, idx), m)) = m
 
 (* everything the invariants and the emitted case need, for K-matrix kc, declaration order ord, parameters v *)
@@ -127,7 +129,7 @@ Sol(kc, ord, v, ex) ==
   LET idx == Idx(kc, ord)
       m   == Len(idx)
       M   == FullK(kc, idx)
-      eig == SortedSeq(EigSet(M, m))
+      eig == Eigen(M, m)
       S   == NormS(ord, v, ex)
       jn  == Normalised(ord, v, ex, idx)
       adj == TLCEval([l \in 1..m |-> Adj(Shift(M, m, eig[l]), m)])
@@ -182,6 +184,7 @@ ReachChain(kc, idx, m) == \A a \in 1..m : (\A b \in 1..(a - 1) : ~ColEmpty(kc, i
 Init == /\ k1 = ZeroK /\ k2 = ZeroK /\ last = 0 /\ phase = "k1" /\ jv = ZeroV /\ kind = "general" /\ rv = ZeroV
 
 AddEntry1(p, r) == /\ phase = "k1" /\ "general" \in Kinds /\ p > last /\ NEntries(k1) < MaxEntries
+                   /\ last = 0 => (FirstLo <= p /\ p <= FirstHi)
                    /\ k1' = [k1 EXCEPT ![p] = r] /\ last' = p
                    /\ UNCHANGED <<k2, phase, jv, kind, rv>>
 
@@ -244,7 +247,7 @@ EigenEq(s) == \A l \in 1..s.m : \A i \in 1..s.m : Dot(s.M[i], s.an[l], s.m) = -s
 Lossless(s) == \A b \in 1..s.m : SumTo([a \in 1..s.m |-> s.M[a][b]], s.m) = 0
 Conserved(s) == Lossless(s) => \A l \in 1..s.m : s.eig[l] # 0 => SumTo(s.an[l], s.m) = 0
 (* the same K and the same j per label, declared in the order 1..N, give the same amplitudes per label *)
-PermEquiv(s) == LET id  == [i \in 1..N |-> i]
+PermutationEquivariance(s) == LET id  == [i \in 1..N |-> i]
                     vid == [c \in 1..N |-> jv[PosIn(Ord, c)]]
                     t   == Sol(Comb, id, vid, Excl)
                 IN /\ t.eig = s.eig /\ t.ad = s.ad /\ t.S = s.S
@@ -261,17 +264,17 @@ Shortcut(s) == LET cm == ClosedMatches(Diag(s), s)
                    rc == JIsE1(s) /\ ReachChain(Comb, s.idx, s.m)
                IN [admissible |-> (cm => rc),
                    sound |-> (ShortcutOK(Comb, s) => rc) /\ ((rc /\ Distinct(Diag(s), s.m)) => cm)]
-ShortcutAdmissible(s) == Shortcut(s).admissible
-ShortcutSound(s) == Shortcut(s).sound
+SequentialShortcutAdmissible(s) == Shortcut(s).admissible
+SequentialShortcutSound(s) == Shortcut(s).sound
 
 InvSumsToJ == Accepted => SumsToJ(Here)
 InvEigenEq == Accepted => EigenEq(Here)
 InvConserved == Accepted => Conserved(Here)
-InvPermEquiv == Accepted => PermEquiv(Here)
+InvPermutationEquivariance == Accepted => PermutationEquivariance(Here)
 InvSeqEquiv == Accepted => SeqEquiv(Here)
 InvParEquiv == Accepted => ParEquiv(Here)
-InvShortcutAdmissible == Accepted => ShortcutAdmissible(Here)
-InvShortcutSound == Accepted => ShortcutSound(Here)
+InvSequentialShortcutAdmissible == Accepted => SequentialShortcutAdmissible(Here)
+InvSequentialShortcutSound == Accepted => SequentialShortcutSound(Here)
 
 Entries(kc) == LET ps == SelectSeq([p \in 1..NN |-> p], LAMBDA p : kc[p] # 0)
                IN [i \in 1..Len(ps) |-> <<To(ps[i]), From(ps[i]), kc[ps[i]]>>]
@@ -283,7 +286,7 @@ Case(st, s) == [st |-> st, kind |-> kind, n |-> N, ord |-> Ord, excl |-> SortedS
 (* all of the above with one evaluation of Sol per state, plus the emission of the case *)
 CheckAndEmit ==
   /\ Accepted => LET s == Here IN
-        /\ SumsToJ(s) /\ EigenEq(s) /\ Conserved(s) /\ PermEquiv(s) /\ SeqEquiv(s) /\ ParEquiv(s)
+        /\ SumsToJ(s) /\ EigenEq(s) /\ Conserved(s) /\ PermutationEquivariance(s) /\ SeqEquiv(s) /\ ParEquiv(s)
         /\ LET sc == Shortcut(s) IN sc.admissible /\ sc.sound
         /\ EmitOn => PrintT(<<"CASE", ToJson(Case("ok", s))>>)
   /\ (EmitOn /\ phase = "done" /\ ~NormOK) => PrintT(<<"CASE", ToJson([st |-> "skip_norm", kind |-> kind])>>)
